@@ -223,6 +223,8 @@ def cmp_pipeline(ctx, drv, mb, q, cr, real_out, family="pipeline"):
         return
     if m.get("wf") is not True:
         ctx.disagree(family + ".wf", _small(rq), "model output does not satisfy WF.modelOK", "n/a")
+    if m.get("skeleton") is not True:
+        ctx.disagree(family + ".skeleton", _small(rq), "model output does not satisfy Skeleton.sameModelSkeleton", "n/a")
     mo, ptab = m["ok"], m["params"]
     ro = pl.read(real_out[1])
     rj = fg.model_json_obj(ro)
